@@ -271,6 +271,70 @@ def rule_counters_backtrack(ctx: Ctx, prog: Program) -> None:
         _exactly_one(ctx, fn, "-", "SOLVER_BACKTRACK_NB", _incs(r.events, stats, IDX["SOLVER_BACKTRACK_NB"]), popped, "when a choice point is resumed")
 
 
+def rule_backtrack_resumes(ctx: Ctx, prog: Program) -> None:
+    """SOLVER_BACKTRACK_NB is incremented inside backtrack(), once per choice point popped: it equals 'choice points resumed' only if every
+    caller goes on searching from the state backtrack() restored.  A caller that pops a choice point and then re-initialises the stacks
+    (reset / cp_init) before the next search has counted a backtrack that resumed nothing (and the pass it would have caused never
+    happens: passes != 1 + choices + backtracks).  Decided on the abstract paths of every method of the sequential solver that calls
+    backtrack(): between a backtrack() that may have succeeded and the next solve_one() there is no reset()/cp_init() -- within one
+    iteration, or from the end of one iteration to the start of the next."""
+    ctx.rule("R-COUNTER")
+    mod = prog.modules.get(f"{prog.package}.solvers.backtrack_solver")
+    if mod is None:
+        raise AnalysisError("anchor module vanished: solvers.backtrack_solver")
+    KEY = ("backtrack", "reset", "cp_init", "solve_one")
+    n = 0
+    for cls, meths in mod.classes.items():
+        for fn in meths.values():
+            names = {x.func.id for x in ast.walk(fn.node) if isinstance(x, ast.Call) and isinstance(x.func, ast.Name)}
+            if "backtrack" not in names:
+                continue
+            n += 1
+            ctx.fn(fn.fq)
+            it = Interp(prog, no_inline={"solve_one": None, "reset": None, "cp_init": None, "backtrack": None, "get_function_addresses": []})
+            res = it.run(fn)
+
+            def seq(evs: List[Event], state: Any) -> List[Tuple[str, Event]]:
+                out: List[Tuple[str, Event]] = []
+                for e in evs:
+                    if e.kind == "call" and e.name:
+                        b = e.name.rsplit(":", 1)[-1]
+                        if b in KEY:
+                            if b == "backtrack" and e.ret is not None:
+                                rv = it.scalar(state, e.ret)
+                                if isinstance(rv, Aff) and state.facts.decide(cmp_cond("==", rv, ZERO)) is True:
+                                    continue  # answered 'no alternative left': nothing was popped, nothing counted
+                            out.append(("reset" if b == "cp_init" else b, e))
+                return out
+            bad: Optional[Event] = None
+            paths: List[PathResult] = list(res)
+            loops: List[LoopSummary] = []
+            for r in res:
+                for l in loops_of(r.state.trace):
+                    if l not in loops:
+                        loops.append(l)
+            for l in loops:
+                sq = [(bp, seq(bp.events, bp.state)) for bp in l.paths]
+                paths.extend(l.paths)
+                ends_popped = [q[-1][1] for bp, q in sq if q and q[-1][0] == "backtrack" and bp.outcome in ("fall", "continue")]
+                starts_reset = [q[0][1] for bp, q in sq if q and q[0][0] == "reset"]
+                if ends_popped and starts_reset:
+                    bad = starts_reset[0]
+            for r in paths:
+                q = seq(r.events, r.state)
+                for (a, _), (b, eb) in zip(q, q[1:]):
+                    if a == "backtrack" and b == "reset":
+                        bad = eb
+            if bad is not None:
+                ctx.violation("R-COUNTER", fn.path, fn.qualname, "SOLVER_BACKTRACK_NB:resumed-then-reset", f"{fn.path}:{bad.line}",
+                              f"{fn.qualname} pops a choice point with backtrack() (counted in SOLVER_BACKTRACK_NB) and re-initialises the stacks before "
+                              "searching from it: a backtrack is counted for a choice point that was never resumed "
+                              "(backtracks != choice points resumed; passes != searches + choices + backtracks)")
+            else:
+                ctx.ok("R-COUNTER", f"{fn.qualname}: every choice point popped by backtrack() is searched from (no reset before the next solve_one)")
+    ctx.floor("R-COUNTER:callers-of-backtrack", n, 2)
+
+
 def rule_counter_writers(ctx: Ctx, prog: Program, thorough: bool = False) -> None:
     """Nobody else writes the statistics array."""
     ctx.rule("R-COUNTER")
